@@ -298,6 +298,12 @@ def replay_state(st: dict, out: dict, want_event: bool) -> None:
     if got != exp_rows:
         V(["C01", "C05"], "executed rows differ from direct evaluation of the applied operation sequence",
           observed=got, expected=exp_rows, leaves="RowSequence")
+    # evaluation must leave the leaves' payloads alone (another tree over the same leaf is evaluated next)
+    for lname, key in (("L1", "l1"), ("L2", "l2")):
+        now = [dict(r) for r in w.payloads[lname].rows]
+        if now != build.rows(st[key]):
+            V(["C01", "C09"], f"execute() modified the payload rows of leaf {lname} (a later evaluation over the same leaf sees different rows)",
+              observed=project.rows(now) if all(isinstance(r, dict) for r in now) else str(now)[:300], expected=st[key])
     # ---------------- static metadata of every node vs its real execution
     try:
         for sub in subrelations(rel):
